@@ -292,9 +292,12 @@ def _ll_native(wrapper, theta_name, call):
 
 
 def _ll_gen(rng):
-    B, D = rng.randint(1, 4), rng.randint(0, 3)
+    # mostly a few bins; one case in five a spectrum of realistic size with realistic error bars (hundreds of bins at 1e-5: the
+    # likelihood normalisation only stays finite as a SUM of logarithms)
+    big = rng.random() < 0.2
+    B, D = (rng.randint(120, 400) if big else rng.randint(1, 4)), rng.randint(0, 3)
     d = dict(B=B, D=D, outcome=rng.choice(['valid', 'valid', 'InvalidModelException']), CHI=rng.choice([0.0, rng.uniform(0, 50)]),
-             obs=[rng.uniform(0.01, 0.02) for _ in range(B)], std=[rng.uniform(1e-5, 1e-3) for _ in range(B)],
+             obs=[rng.uniform(0.01, 0.02) for _ in range(B)], std=[rng.uniform(1e-5, 5e-5 if big else 1e-3) for _ in range(B)],
              theta=[rng.uniform(0, 1) for _ in range(D)])
     for k in range(3):
         d['psa%d' % k], d['psb%d' % k] = rng.uniform(-2, 2), rng.uniform(0.1, 3)
